@@ -156,6 +156,7 @@ def apply_differential(R, ctx, binary, n):
     lines = list(core.corpus("apply")) + gen_apply_lines(rng, n)
     obs, se, rc = core.run_harness(binary, "apply", lines, timeout=300)
     d = core.run_driver(obs, timeout=600)
+    core.negative_control(R, obs, "apply", skip=lambda l: " => " not in l)
     refused = sum(1 for l in obs if "=> FATAL" in l)
     overlap = sum(1 for l in obs if l.startswith("B") and "=> -" in l)
     pos = int(d["summary"].get("positive", 0) or 0)
